@@ -326,10 +326,50 @@ func DataSetInto(set entities.Set, id uint16, fields []ref.Field, recs [][]ref.V
 // that reuse their elements from record to record.
 func NewElements(fields []ref.Field) []entities.InfoElementWithValue {
 	els := make([]entities.InfoElementWithValue, len(fields))
+	// address elements start from one shared all-zero placeholder, as applications that create
+	// their elements with net.IPv4zero / net.IPv6unspecified do: a setter must replace the
+	// value, not write into memory the element does not own
+	ph := [2][]byte{make([]byte, 4), make([]byte, 16)}
+	phMu.Lock()
+	if placeholders = append(placeholders, ph); len(placeholders) > 8 {
+		placeholders = placeholders[1:]
+	}
+	phMu.Unlock()
 	for i, f := range fields {
-		els[i] = glue.Element(glue.IE(f), f.Type, ref.Value{})
+		v := ref.Value{}
+		switch f.Type {
+		case ref.TIPv4:
+			v.B = ph[0]
+		case ref.TIPv6:
+			v.B = ph[1]
+		}
+		els[i] = glue.Element(glue.IE(f), f.Type, v)
 	}
 	return els
+}
+
+var (
+	phMu         sync.Mutex
+	placeholders [][2][]byte
+)
+
+// PlaceholdersIntact reports whether the shared placeholders of the latest NewElements calls still
+// hold zeros (and forgets the ones that do not, so that the failure belongs to the case that did it).
+func PlaceholdersIntact() bool {
+	phMu.Lock()
+	defer phMu.Unlock()
+	ok := true
+	for _, ph := range placeholders {
+		for _, b := range append(append([]byte(nil), ph[0]...), ph[1]...) {
+			if b != 0 {
+				ok = false
+			}
+		}
+	}
+	if !ok {
+		placeholders = nil
+	}
+	return ok
 }
 
 // DataSetReusing fills set (reset first) with the records, writing every record's values into the
